@@ -2080,10 +2080,18 @@ def c17_near_inputs(tier):
             names[1], names[9] = names[9], names[1]
         elif kind == "case-changed":
             recs[4] = recs[4].lower()
+        elif kind == "same-size-one-record-fewer":
+            # two records become one; the bytes of the vanished header line come back as bases: the file keeps its size
+            def size(rs, ns):
+                return sum(len(b">%s desc %d\n%s\n" % (ns[i], i, r)) for i, r in enumerate(rs))
+            recs[3] = recs[3] + recs[4]
+            del recs[4]
+            del names[4]
+            recs[3] = recs[3] + (b"ACGTTGCAAGCTTAGG" * 4)[:size(list(base), list(ids)) - size(recs, names)]
         return recs, names
 
     paths = {"base": write_inputs(d, "base", base, ids)["fa"]}
-    for v in ("ids-exchanged", "one-base-substituted", "records-exchanged", "case-changed"):
+    for v in ("ids-exchanged", "one-base-substituted", "records-exchanged", "case-changed", "same-size-one-record-fewer"):
         recs, names = variant(v)
         sub = os.path.join(d, v)
         os.makedirs(sub)
@@ -2118,9 +2126,19 @@ def c17_near_inputs(tier):
         first, second = ("base", v) if order == 0 else (v, "base")
         wd = fresh_dir("near")
         shared, fresh = os.path.join(wd, "shared"), os.path.join(wd, "fresh")
-        invoke(kind, paths[first], shared)
-        rc2, so, err2, to = invoke(kind, paths[second], shared)
-        rcf, so, errf, to = invoke(kind, paths[second], fresh)
+        if order == 2:
+            # the input keeps its PATH between the runs and gets the other content (a file regenerated in place)
+            first, second = "base", v
+            here = os.path.join(wd, "reads.fa")
+            shutil.copy(paths[first], here)
+            invoke(kind, here, shared)
+            shutil.copy(paths[second], here)
+            rc2, so, err2, to = invoke(kind, here, shared)
+            rcf, so, errf, to = invoke(kind, here, fresh)
+        else:
+            invoke(kind, paths[first], shared)
+            rc2, so, err2, to = invoke(kind, paths[second], shared)
+            rcf, so, errf, to = invoke(kind, paths[second], fresh)
         rep.ev(1, 1)
         if rcf != 0:
             raise fe.Machinery("c17_near_inputs: the run into a fresh location failed for %s: %r" % (kind, errf[-200:]))
@@ -2129,10 +2147,46 @@ def c17_near_inputs(tier):
                 kind, second, first, v, rc2), "c17_near_inputs", {"kind": kind, "variant": v, "order": order})
         shutil.rmtree(wd, ignore_errors=True)
 
-    jobs = [(k, v, o) for k in KINDS for v in paths if v != "base" for o in (0, 1)]
+    jobs = [(k, v, o) for k in KINDS for v in paths if v != "base" for o in (0, 1, 2)]
     pmap(do, jobs)
     rep.count("c17.near_input_histories", len(jobs))
     rep.sample("kmertools min -p m2s on 12 records, then on the same records with the ids of two of them exchanged, same output path: the listing of the second input")
+    return rep.done()
+
+
+def c_giant_record_in_the_middle(tier, kinds):
+    """one record of 2^28 + 5 bases between two short ones (a chromosome after a contig): the rows come in input order.
+    Raw counts at k = 3; oracle: the row sums are the window counts of the three records, in that order."""
+    rep = Rep()
+    d = fresh_dir("giant")
+    n = (1 << 28) + 5
+    inp = os.path.join(d, "g.fa")
+    unit = (b"ACGTTGCAAGCTTAGGCATCGATCGGATTACAGATTACACCAGTAGCTAACGG" * 20000)
+    with open(inp, "wb") as f:
+        f.write(b">short1\n" + b"ACGTTGCAAGCTTAGGCATCGATCGGATTACAGATTACAC\n>giant\n")
+        left = n
+        while left > 0:
+            f.write(unit[:left])
+            left -= min(left, len(unit))
+        f.write(b"\n>short2\n" + b"TTGACCGGATACGCAGGCATTACGATCCGACATGCCGATTAGGCTACGTA\n")
+    want = [40 - 2, n - 2, 50 - 2]
+    ARGS = {"kcgr": ["comp", "cgr", "-k", "3", "-v", "64", "-c"], "oligo-c": ["comp", "oligo", "-c", "-k", "3"]}
+    for kind in kinds:
+        out = os.path.join(d, kind + ".out")
+        a = ARGS[kind]
+        rc, so, err, to = cli(a[:2] + ["-i", inp, "-o", out] + a[2:] + ["-t", "2"], timeout=900)
+        rep.ev(1, 1)
+        rows = lines_of(read(out)) or []
+        sums = []
+        for row in rows:
+            if kind == "kcgr":
+                sums.append(int(round(sum(float(t.rstrip(b")").rsplit(b",", 1)[1]) for t in row.split(b" ") if t))))
+            else:
+                sums.append(int(round(sum(float(t) for t in row.split(b" ") if t))))
+        if rc != 0 or sums != want:
+            rep.violation("rows-out-of-order", 3, "kmertools %s on records of 40, 2^28 + 5 and 50 bases: exit %s, row sums %r, expected %r (the window counts in input order)" % (" ".join(a), rc, sums, want), "c_giant_record", {"kind": kind})
+    shutil.rmtree(d, ignore_errors=True)
+    rep.count("cases.giant_record_between_short_ones", len(kinds))
     return rep.done()
 
 
